@@ -10,6 +10,7 @@ import sys
 HERE = os.path.dirname(os.path.dirname(os.path.abspath(__file__)))
 prefix = sys.argv[1]
 outdir = sys.argv[2] if len(sys.argv) > 2 else "/tmp/seed_prompts"
+hint = (" " + sys.argv[3]) if len(sys.argv) > 3 else ""
 os.makedirs(outdir, exist_ok=True)
 
 earlier = {}
@@ -33,11 +34,11 @@ TASK: make ONE change to the library source under {wt}/tawazi (not to the tests)
  1. the library still imports and the existing test suite still passes entirely: `cd {wt} && /venv/bin/python -m pytest -q -p no:cacheprovider --timeout=900 -x -q` (about 40 s; a test named test_main_thread_resource_computation_time may be flaky, ignore that one only);
  2. the change looks like something a maintainer could plausibly write (a refactoring, an optimisation, a "simplification", an off-by-one, a wrong copy, a reordered statement, a cache, handling moved to another place...), is small (usually < 25 changed lines), and is NOT a blatant sabotage, not dependent on environment variables, dates, randomness or special-cased inputs/names;
  3. it needs something SPECIFIC to manifest — a particular interleaving / completion order, a failure at a particular point, a multi-step sequence of operations on one object, an unusual but legitimate input shape, or two cooperating code sites that each look fine alone — NOT something ordinary use would expose at once. Ordinary simple pipelines must keep working.
- 4. Earlier contributors already used these mechanisms for this property; choose a DIFFERENT code site and mechanism (prefer a file or function none of them touched): {earlier}.
+ 4. Earlier contributors already used these mechanisms for this property; choose a DIFFERENT code site and mechanism (prefer a file or function none of them touched): {earlier}.{hint}
 
 DELIVERABLES, all written into {out}/ :
  - patch.diff : `cd {wt} && git diff > {out}/patch.diff` (the change, applying cleanly to the unchanged tree with `git apply`);
- - demo.py : a self-contained script (only stdlib + tawazi; no pytest needed) that exits 0 on the UNCHANGED tree and exits 1 (prints what went wrong) WITH your change; it must be deterministic (use threading.Event / barriers rather than sleeps where an interleaving matters; keep any sleep short) and finish within 20 s, never hang (use timeouts). Verify both: with the change applied, then `git stash` / `git apply -R`, run again, and re-apply.
+ - demo.py : a self-contained script (only stdlib + tawazi; no pytest needed) that exits 0 on the UNCHANGED tree and exits 1 (prints what went wrong) WITH your change; it must be deterministic (use threading.Event / barriers rather than sleeps where an interleaving matters; keep any sleep short) and finish within 20 s, never hang (use timeouts). Verify both: with the change applied, then `git apply -R {out}/patch.diff`, run again, and re-apply with `git apply {out}/patch.diff` (do NOT use `git stash`: the stash is shared by all worktrees of the repository).
  - notes.md : what you changed, why it breaks the property (which clause), what exactly is needed for it to manifest, and what you ran (test suite result with the change, demo result with / without).
 Leave the worktree with your change applied (uncommitted). Delete test artefacts you created (cov.info, Digraph.gv*, pytest-junit.xml). Your final answer: 5-10 lines summarising the change, the manifestation conditions, and the verification you did."""
 
@@ -49,6 +50,6 @@ for line in open(os.path.join(HERE, "properties.jsonl")):
     anchors = "%s | files: %s" % (mech, ", ".join(a.get("files", [])))
     rid = prefix + pid
     text = TEMPLATE.format(wt="/tmp/wt_" + rid, out="/tmp/seed_out/" + rid, pid=pid, title=p["title"], statement=p["statement"],
-                           anchors=anchors, earlier="; ".join(earlier.get(pid, [])) or "(none yet)")
+                           anchors=anchors, earlier="; ".join(earlier.get(pid, [])) or "(none yet)", hint=hint)
     open(os.path.join(outdir, rid + ".txt"), "w").write(text)
 print("wrote %d prompts to %s" % (len(open(os.path.join(HERE, 'properties.jsonl')).readlines()), outdir))
